@@ -3,6 +3,8 @@
   Model: Model/Proto/Req.lean; the history invariant is proved in Model/Proto/ReqInv.lean.
 -/
 import Model.Proto.ReqInv
+import Model.Proto.ReqOnce
+import Model.Proto.ReqGone
 namespace Props.C03
 open Model Model.Proto
 
@@ -80,5 +82,35 @@ theorem reply_stored_only_for_registered (s : Req.State) (now : Nat) (p b : Stri
   exact this.symm
 
 example : Req.init.ctxByID = [] := rfl
+
+/-- **each request yields at most one delivered reply**, in every reachable state — any history of Sends and Recvs on any
+    contexts, any number of duplicate, late, retried, stale or foreign replies on any pipes, pipes lost and added, timers,
+    closes: the list of the requests (by number) that the replies returned by Recv were delivered for has no duplicates,
+    and every entry is a request that was really made (ghost list `deliveredFor`, appended at the one place of the model
+    where Recv returns a message: `wakeRecv_logs_what_it_returns`) -/
+theorem at_most_one_reply_per_request (s : Req.State) (h : Req.Reach s) :
+    s.deliveredFor.Nodup ∧ ∀ k ∈ s.deliveredFor, k ≠ 0 ∧ k ≤ s.nsent :=
+  Req.at_most_one_reply_per_request s h
+
+/-- … and once a reply has been returned for a request, no context is working on that request any more (so the retry
+    timer, a lost pipe or a late reply cannot revive it: `Props.C04.retired_request_is_never_transmitted_again`) -/
+theorem delivered_request_is_finished (s : Req.State) (h : Req.Reach s) :
+    ∀ k ∈ s.deliveredFor, ∀ d x, Req.getCtx s d = some x → x.reqID ≠ k :=
+  (Req.reach_A s h).done
+
+/-- **replies to earlier, cancelled, timed-out or answered requests are never delivered**, over every continuation of every
+    history: once request number k is no context's current request (a newer Send replaced it, a deadline expired, its
+    pipe was lost with retries disabled, its context or the socket was closed, or its reply was returned), the replies
+    returned for k are, in every state reachable from there, exactly what they were — whatever replies carrying its id
+    arrive later, on whichever pipes, however often -/
+theorem abandoned_request_never_delivers (s : Req.State) (k : Nat) (hnz : k ≠ 0) (hle : k ≤ s.nsent)
+    (hgone : ∀ d x, Req.getCtx s d = some x → x.reqID ≠ k) :
+    ∀ t, Req.ReachFrom s t → Req.repliesFor k t = Req.repliesFor k s :=
+  Req.abandoned_request_never_delivers s k hnz hle hgone
+
+/-- … and cancel (the common path of all those events) puts the context's request into that condition -/
+theorem cancel_abandons_the_request (s : Req.State) (hs : Req.Reach s) (c : Nat) (x : Req.Ctx) (hx : Req.getCtx s c = some x)
+    (hnz : x.reqID ≠ 0) : ∀ d y, Req.getCtx (Req.cancel s c) d = some y → y.reqID ≠ x.reqID :=
+  Req.cancel_abandons s (Req.reach_T s hs) c x hx hnz
 
 end Props.C03
